@@ -189,7 +189,8 @@ WSummary ==
   [class |-> FaultClass(plan, dev), redundant |-> dev.redundant, k |-> plan.k,
    res |-> res, at |-> at,
    term |-> [i \in 1..Len(res) |-> IF i > Len(res) - fin.tries THEN 1 ELSE 0],
-   prefix |-> IsPrefix(acc, Full(script)), complete |-> acc = Full(script)]
+   prefix |-> IsPrefix(acc, Full(script)), complete |-> acc = Full(script),
+   nomissing |-> Len(acc) >= Total(script), rbnone |-> TRUE, rbsame |-> FALSE]
 
 (* ------------------------------------------------------------ the reader *)
 NFrames == Len(file.frames)
